@@ -188,11 +188,28 @@ def value(ctx, R="R-C18-value"):
         else:
             ctx.ok(R, f.loc(rnode), what, "%d scenarios (in_place x input dtype float64/float32/int16 x axis none/last/other x rank) evaluated" % n_ok)
     for name in ("Dither", "Preemphasize"):
-        init = prog.own_method(prog.cls("pre." + name), "__init__")
+        Rn = "R-C18-stencil" if name == "Preemphasize" else "R-C18-dither-independence"
+        init = prog.find_method(prog.cls("pre." + name), "__init__")
+        if init is None:
+            ctx.error(Rn, "cannot decide how %s stores its coefficient: no __init__ found along its class hierarchy" % name)
+            continue
         evi = SymEval(prog, init).run()
         got = evi.env.get("self.coeff")
-        ctx.check(got is not None and got == S.sym("coeff"), "R-C18-stencil" if name == "Preemphasize" else "R-C18-dither-independence", init, init.node,
-                  "coeff is stored unchanged", "%s.__init__ stores coeff as %s" % (name, S.show(got) if got is not None else "nothing"))
+        cname = next((p_ for p_ in init.params[1:] if p_ == "coeff"), init.params[1] if len(init.params) > 1 else "coeff")
+        plain = got is not None and (got == S.sym(cname) or got == S.call("float", S.sym(cname)))
+        if plain:
+            ctx.ok(Rn, init.loc(), "coeff is stored unchanged")
+            continue
+        # a stored value that depends on the truth value of coeff replaces 0 / 0.0 by something else: coeff = 0 is the identity
+        # transform (no noise, no emphasis) and must stay 0
+        falsy_replaced = got is not None and any(isinstance(x, S.E) and x.op in ("or", "cond") and any(
+            (a_ == S.sym(cname) or (isinstance(a_, S.E) and a_.op in ("bool", "not") and a_.args[0] == S.sym(cname))) for a_ in x.args) for x in S.walk(got))
+        if falsy_replaced:
+            ctx.bad(Rn, init, init.node, "%s stores its coefficient as %s: a coefficient of 0 (no noise / no emphasis - the identity) is falsy and is replaced" % (
+                name, S.show(got)[:80]), "coeff is stored unchanged", robust=True)
+        else:
+            ctx.check(False, Rn, init, init.node, "coeff is stored unchanged", "%s.__init__ stores coeff as %s" % (name, S.show(got) if got is not None else "nothing"),
+                      structural=(got is None or S.has_unknown(got)))
 
 
 def stencil(ctx, R="R-C18-stencil"):
